@@ -95,6 +95,122 @@ def bmc_cubes(fn, name, K, alphabet, depth, tmo, props, nchoices=2):
     return cubes
 
 
+# ----------------------------------------------------------------------------- mode 2: normal-form prefix + symbolic suffix
+
+STAGES = ["queued", "pending", "pulled", "finished-ok", "finished-error", "killed-queued", "killed-pulled",
+          "timedout-queued", "timedout-pulled", "timedout-pending"]
+SHORT, LONG = 5, 1000
+
+
+def nf_prefix_ops(stages, sym):
+    """Canonical history of real API calls that puts job j into stages[j]; arguments stay symbolic.
+    Returns the list of (op, a, b, c).  Blocked pullers are created first (the queue is empty then), pulled jobs are
+    added and pulled one at a time (so the pull can only return that job), queued jobs are added last; one clock
+    step of 10 at the end lets the short-timeout jobs expire."""
+    ops = []
+    J = len(stages)
+    wk = 0
+    pend = [j for j in range(J) if STAGES[stages[j]] in ("pending", "timedout-pending")]
+    pulled = [j for j in range(J) if STAGES[stages[j]] in ("pulled", "finished-ok", "finished-error", "killed-pulled", "timedout-pulled")]
+    queued = [j for j in range(J) if STAGES[stages[j]] in ("queued", "killed-queued", "timedout-queued")]
+    jid = 0
+    ids = {}
+    for j in pend:
+        ch = sym["ch%d" % j]
+        ops.append((qsim.PULL, wk, 3, 0))  # any channel, blocks
+        tmo = SHORT if STAGES[stages[j]].startswith("timedout") else LONG
+        ops.append((qsim.ADD, ch, sym["pr%d" % j], tmo))
+        jid += 1
+        ids[j] = jid
+        wk += 1
+    first_free = wk
+    for j in pulled:
+        st = STAGES[stages[j]]
+        ch = sym["ch%d" % j]
+        tmo = SHORT if st.startswith("timedout") else LONG
+        ops.append((qsim.ADD, ch, sym["pr%d" % j], tmo))
+        jid += 1
+        ids[j] = jid
+        w = first_free + sym["wk%d" % j]
+        ops.append((qsim.PULL, w, 3, 0))
+        if st == "finished-ok":
+            ops.append((qsim.FINISH_ID, w, ids[j], 0))
+        elif st == "finished-error":
+            ops.append((qsim.FINISH_ID, w, ids[j], 1))
+        elif st == "killed-pulled":
+            ops.append((qsim.KILL, ids[j] - 1, 0, 0))
+    for j in queued:
+        st = STAGES[stages[j]]
+        tmo = SHORT if st.startswith("timedout") else LONG
+        ops.append((qsim.ADD, sym["ch%d" % j], sym["pr%d" % j], tmo))
+        jid += 1
+        ids[j] = jid
+        if st == "killed-queued":
+            ops.append((qsim.KILL, ids[j] - 1, 0, 0))
+    if any(STAGES[x].startswith("timedout") for x in stages):
+        ops.append((qsim.TICK, 0, 0, 10))
+    return ops
+
+
+def h_nf(stages: tuple, S: int, alphabet: tuple, props: tuple, nchoices: int = 2, **sym):
+    """Jobs brought into symbolic-argument normal-form stages by real API calls, then S fully symbolic operations, then the drain."""
+    jobs, qserve = load_modules()
+    J = len(stages)
+    npend = 0
+    for x in stages:
+        if STAGES[x] in ("pending", "timedout-pending"):
+            npend += 1
+    for j in range(J):
+        assume(0 <= sym["wk%d" % j] < 3 - npend)
+    ops = nf_prefix_ops(stages, sym)
+    for i in range(1, S + 1):
+        o = sym["o%d" % i]
+        ok = False
+        for x in alphabet:
+            if o == x:
+                ok = True
+                break
+        assume(ok)
+        ops.append((o, sym["a%d" % i], sym["b%d" % i], sym["c%d" % i]))
+    choices = [sym["r%d" % i] for i in range(1, nchoices + 1)]
+    return qsim.run_schedule(jobs, qserve, ops, choices, props)
+
+
+def nf_params(J, S, nchoices=2):
+    p = {}
+    for j in range(J):
+        p["ch%d" % j] = int
+        p["pr%d" % j] = int
+        p["wk%d" % j] = int
+    for i in range(1, S + 1):
+        for x in "oabc":
+            p["%s%d" % (x, i)] = int
+    for i in range(1, nchoices + 1):
+        p["r%d" % i] = int
+    return p
+
+
+def nf_cubes(fn, name, J, S, alphabet, tmo, props, stage_set=None, nchoices=2):
+    import itertools
+
+    from vlib.runner import Cube
+
+    cubes = []
+    stage_ids = list(range(len(STAGES))) if stage_set is None else [STAGES.index(x) for x in stage_set]
+    for st in itertools.product(stage_ids, repeat=J):
+        npend = sum(1 for x in st if STAGES[x] in ("pending", "timedout-pending"))
+        if npend > 2:
+            continue  # at most two of the three workers are parked as blocked pullers
+        # jobs are interchangeable: keep one representative per multiset of stages
+        if list(st) != sorted(st):
+            continue
+        label = "+".join(STAGES[x] for x in st)
+        cubes.append(Cube(f"{name} [{label}] +{S} ops", fn, nf_params(J, S, nchoices),
+                          {"stages": tuple(st), "S": S, "alphabet": tuple(alphabet), "props": tuple(props), "nchoices": nchoices},
+                          timeout=tmo, per_path_timeout=30, group=name))
+    return cubes
+
+
 # ----------------------------------------------------------------------------- replay on the real modules
 
 
@@ -107,13 +223,18 @@ def replay_history(cand: dict, props) -> dict:
     if not isinstance(d, dict):
         d = cand.get("detail")
     args = cand["args"]
-    prefix = list(args.get("prefix") or [])
-    K = args["K"]
-    ops = []
-    for i in range(1, K + 1):
-        o = prefix[i - 1] if i <= len(prefix) else args["o%d" % i]
-        c = args["c%d" % i] if qsim.TICK in args["alphabet"] else 100
-        ops.append((o, args["a%d" % i], args["b%d" % i], c))
+    if "stages" in args:
+        ops = nf_prefix_ops(tuple(args["stages"]), args)
+        for i in range(1, args["S"] + 1):
+            ops.append((args["o%d" % i], args["a%d" % i], args["b%d" % i], args["c%d" % i]))
+    else:
+        prefix = list(args.get("prefix") or [])
+        K = args["K"]
+        ops = []
+        for i in range(1, K + 1):
+            o = prefix[i - 1] if i <= len(prefix) else args["o%d" % i]
+            c = args["c%d" % i] if qsim.TICK in args["alphabet"] else 100
+            ops.append((o, args["a%d" % i], args["b%d" % i], c))
     choices = [args["r%d" % i] for i in range(1, args.get("nchoices", 2) + 1)]
     import logging
 
